@@ -126,6 +126,20 @@ Theorem C03_light_load_all_replies_arrive : forall c h (f : uview -> bool),
 Proof. exact light_load_all_replies_arrive. Qed.
 Print Assumptions C03_light_load_all_replies_arrive.
 
+(* order: within one work connection (no replacement in the history) the tunnel is a FIFO pipeline:
+   the sequence handed to the backend is a subsequence of the sequence sent, hence so is the
+   sequence of every single user.  Across a replacement order is NOT preserved (the old Forwarder
+   drains concurrently with the new one); the property text does not ask for it. *)
+Theorem C03_order_preserved_within_connection : forall c h,
+  forallb (fun e => negb (is_replace e)) h = true ->
+  usubseq (ubackend (snd (urun c (fst (ustep c uinit EWorkConnReplaced)) h))) (usent c h) /\
+  (forall f, usubseq (filter f (ubackend (snd (urun c (fst (ustep c uinit EWorkConnReplaced)) h)))) (filter f (usent c h))).
+Proof.
+  intros c h Hh. pose proof (order_preserved c h Hh) as H. cbv zeta in H.
+  split; [exact H|]. intros f. now apply usubseq_filter.
+Qed.
+Print Assumptions C03_order_preserved_within_connection.
+
 (* reply addressing.  (1) the socket map is injective on live entries; (2) a reply read on socket
    s is tagged with the address whose first datagram created s; (3) a socket is created once, so
    that address is unique; (4) every datagram ever written to s came from the same printed
@@ -148,6 +162,13 @@ Proof.
   - intros f. exact (replies_delivered_were_tagged c h f).
 Qed.
 Print Assumptions C03_reply_to_originating_user_only.
+
+(* the map key identifies the user: distinct IPv4 source addresses (no zone, port in range) print
+   differently, so two users behind one IP never share a key *)
+Theorem C03_printed_address_identifies_v4_user : forall a b,
+  uaddr_v4 a -> uaddr_v4 b -> uaddr_string (Some a) = uaddr_string (Some b) -> a = b.
+Proof. exact uaddr_string_inj_v4. Qed.
+Print Assumptions C03_printed_address_identifies_v4_user.
 
 (* after the reader goroutine of a socket has ended (idle timeout, or its Forwarder was replaced)
    the socket is never created again, never written to and no reply is ever read from it,
